@@ -2,6 +2,7 @@
 sharding over parallel core processes, trace merging.  Used by the coresim-based checks."""
 import json
 import os
+import shutil
 import subprocess
 import time
 from concurrent.futures import ThreadPoolExecutor
@@ -107,13 +108,22 @@ def run_scenarios(ctx, scenarios, procs=None, timeout=1500, rerun_skipped=True, 
         clean = [{k: v for k, v in s.items() if k != "isolated"} for s in part]
         ctx.write_ndjson(scn, clean)
         t0 = time.time()
-        try:
-            p = subprocess.run([binp, "-mode", "run", "-work", d, "-scenarios", scn, "-trace", trc], stdout=subprocess.PIPE,
-                               stderr=subprocess.STDOUT, text=True, timeout=timeout)
-        except subprocess.TimeoutExpired:
-            raise vlib.Inconclusive("coresim shard %d timed out after %ds" % (idx, timeout))
-        out = p.stdout
-        last = out.strip().splitlines()[-1] if out.strip() else ""
+        for attempt in (1, 2):
+            try:
+                p = subprocess.run([binp, "-mode", "run", "-work", d, "-scenarios", scn, "-trace", trc], stdout=subprocess.PIPE,
+                                   stderr=subprocess.STDOUT, text=True, timeout=timeout)
+            except subprocess.TimeoutExpired:
+                raise vlib.Inconclusive("coresim shard %d timed out after %ds" % (idx, timeout))
+            out = p.stdout
+            last = out.strip().splitlines()[-1] if out.strip() else ""
+            started = os.path.exists(trc) and os.path.getsize(trc) > 0 and '"ev":"End"' in open(trc).read()
+            if p.returncode == 0 and last.startswith("scenarios="):
+                break
+            if started or attempt == 2:
+                break
+            # the core did not come up (e.g. a port was taken in the meantime): nothing was executed, try once more
+            shutil.rmtree(os.path.join(d, "wd"), ignore_errors=True)
+            shutil.rmtree(os.path.join(d, "wfrepo"), ignore_errors=True)
         if p.returncode != 0 or not last.startswith("scenarios="):
             ctx.save_debug(type("R", (), {"out": out})(), "coresim_shard%d.txt" % idx)
             raise vlib.Inconclusive("coresim shard %d failed rc=%d: %s" % (idx, p.returncode, vlib.tail(out, 12)))
